@@ -166,7 +166,7 @@ T tdigest<T, A>::get_quantile(double rank) const {
   }
   const double last_weight = centroids_.back().get_weight();
   if (last_weight > 1 && centroids_weight_ - weight <= last_weight / 2.0) {
-    return max_ + (centroids_weight_ - weight - 1.0) / (last_weight / 2.0 - 1.0) * (max_ - centroids_.back().get_mean());
+    return max_ - (centroids_weight_ - weight - 1.0) / (last_weight / 2.0 - 1.0) * (max_ - centroids_.back().get_mean());
   }
 
   // interpolate between extremes
